@@ -12,7 +12,7 @@ rsync -a --exclude .git --exclude _ref --exclude _mut /repo/ "$scratch/repo/"; m
 ( cd "$scratch/repo" && go build ./... ) 2>"$scratch/build.txt" || { echo "$m: DOES NOT COMPILE"; exit 4; }
 suite=$( cd "$scratch/repo" && go test -vet=off -count=1 ./... 2>&1 | grep -v "no test files" )
 nok=$(echo "$suite" | grep -c '^ok'); nfail=$(echo "$suite" | grep -c -E '^(FAIL|---)')
-out=$(CGO_ENABLED=0 "$here/bin/spinecheck" -props all -repo "$scratch/repo" -verif "$scratch/verif" 2>&1 | grep -E "^(VIOLATION:|UNDECIDED:|environment|analysis panic)" | cut -c1-330)
+out=$(CGO_ENABLED=0 "${SPINECHECK_BIN:-$here/bin/spinecheck}" -props all -repo "$scratch/repo" -verif "$scratch/verif" 2>&1 | grep -E "^(VIOLATION:|UNDECIDED:|environment|analysis panic)" | cut -c1-330)
 n=$(echo -n "$out" | grep -c .)
 echo "$(basename $(dirname $(dirname $m)))-$(basename $m): suite ${nok}ok/${nfail}fail; alarms $n"
 [ "$n" -gt 0 ] && echo "$out" | sed 's/^/    /'
